@@ -398,6 +398,79 @@ unsafe impl Sync for ShWrap {}
 unsafe impl Send for ShWrap {}
 struct ShWrap(ShCell);
 
+/// C02's local form on every atomic type: each atomic operation is preceded by a scheduling
+/// decision (two consecutive operations of one task never carry the same decision stamp). Runs a
+/// generated typed-atomic case and reports under C02.
+pub fn atomic_choicepoint_run(rng: &mut Rng, out: &mut RunOut) {
+    let case = gen_atomic_case(rng);
+    atomic_choicepoint_case(&case, out);
+}
+
+pub fn atomic_choicepoint_replay(case: &Value, out: &mut RunOut) -> bool {
+    match case.get("atomic_choicepoint_case").and_then(|c| serde_json::from_value::<ACase>(c.clone()).ok()) {
+        Some(c) => {
+            atomic_choicepoint_case(&c, out);
+            true
+        }
+        None => false,
+    }
+}
+
+fn atomic_choicepoint_case(case: &ACase, out: &mut RunOut) {
+    let c = Arc::new(case.clone());
+    let c2 = c.clone();
+    let (ending, rt) = run_recorded(SimSched::new(case.sim.clone()), quiet_config(), move || {
+        let cell = Arc::new(ShWrap(new_sh(&c2.ty, c2.init)));
+        let mut hs = vec![];
+        for (ti, ops) in c2.tasks.iter().enumerate().skip(1) {
+            let cell = cell.clone();
+            let ops = ops.clone();
+            hs.push(shuttle::thread::spawn(move || {
+                for (i, op) in ops.iter().enumerate() {
+                    let r = apply_sh(&cell.0, op);
+                    crate::sim::log("A", format!("{}.{}", ti, i), r);
+                }
+            }));
+        }
+        for (i, op) in c2.tasks[0].iter().enumerate() {
+            let r = apply_sh(&cell.0, op);
+            crate::sim::log("A", format!("0.{}", i), r);
+        }
+        for h in hs {
+            h.join().unwrap();
+        }
+    });
+    out.evals += rt.execs.len() as u64;
+    let cj = || json!({"atomic_choicepoint_case": case});
+    if let Ending::Panicked(m) = &ending {
+        out.violation(format!("C02:atomic:unexpected-panic:{}", m.chars().take(30).collect::<String>()), m.clone(), cj());
+        return;
+    }
+    for ex in &rt.execs {
+        out.decisions += ex.decisions().count() as u64;
+        if ex.switches() > 0 {
+            out.distinct.push(hash_debug(&("cp", &case.ty, ex.chosen_seq(), case.init)) ^ hash_debug(&case.tasks.iter().map(|t| t.iter().map(|o| (format!("{:?}", o.kind), o.x, o.y)).collect::<Vec<_>>()).collect::<Vec<_>>()));
+        }
+        let mut last_step: std::collections::BTreeMap<u32, u64> = Default::default();
+        for e in ex.events.iter().filter(|e| e.kind == "A") {
+            out.count("atomic_ops_with_choice_point_checked", 1);
+            let (ti, i) = e.op.split_once('.').unwrap();
+            let op = &case.tasks[ti.parse::<usize>().unwrap()][i.parse::<usize>().unwrap()];
+            if let Some(prev) = last_step.get(&e.task) {
+                if *prev == e.step as u64 {
+                    out.violation(
+                        format!("C02:no-choice-point-before:atomic-{:?}", op.kind),
+                        format!("type {}: operation {:?} of task {} completed without any scheduling decision since the task's previous atomic operation (decision stamp {}): the other tasks' operations can never be ordered between the two", case.ty, op, e.task, e.step),
+                        cj(),
+                    );
+                    return;
+                }
+            }
+            last_step.insert(e.task, e.step as u64);
+        }
+    }
+}
+
 fn run_atomic_case(case: &ACase, out: &mut RunOut) {
     let c = Arc::new(case.clone());
     let c2 = c.clone();
